@@ -200,12 +200,9 @@ def gfm_model(it, bound, node):
     cases = gfm_cases(path.t, hv)
 
     def pick():
-        live = [(nm, c, ys, t, e) for nm, c, ys, t, e in cases if ctx.feasible(c)]
-        if not live:
-            from vp.symex import Infeasible
-            raise Infeasible()
-        d = ctx.choose(len(live), 'gfm-case') if len(live) > 1 else 0
-        nm, c, ys, t, e = live[d]
+        alive = [ctx.feasible(c) for nm, c, ys, t, e in cases]
+        d = ctx.choose(len(cases), 'gfm-case', alive=alive)
+        nm, c, ys, t, e = cases[d]
         ctx.assume(c)
         st['case'] = (nm, ys, t, e)
         ctx.ghost.setdefault('gfm_cases', []).append((nm, path.t))
